@@ -19,7 +19,7 @@ EXPLANATION = (
     "and is drained only on the path that ends the program; (R6) every instruction the generator "
     "emits carries a position that derives from the construct being lowered; (R7) argument errors of "
     "user SUB / FUNCTION calls are positioned at the call; (R8) the row table counts a CR LF as one line end "
-    "wherever the LF exists (the guard of the look-ahead is not stronger than `in range`; shared with C09.R13).")
+    "wherever the LF exists (the guard of the look-ahead is not stronger than `in range`; shared with C09.R13); (R9) error_envelope only moves positions; (R10) the conversions of a file or string into the input view hand the text over verbatim - no line-splitting or trimming std call on the way, which would merge or drop line ends before rows are counted.")
 NOT_DECIDED = ["that row/column numbers are correct for arbitrary layouts and line endings (value-level)"]
 
 
@@ -334,6 +334,61 @@ def r9_trace_is_moved_unchanged(ctx, rule="C11.R9"):
     ctx.require(rule, 3)
 
 
+LINE_EDITING_STD = ("lines", "split", "split_terminator", "split_inclusive", "rsplit", "splitn", "split_whitespace",
+                    "trim", "trim_end", "trim_start", "trim_end_matches", "trim_matches", "strip_suffix", "replace",
+                    "replacen", "retain", "dedup", "filter", "skip_while", "take_while")
+
+
+def r10_program_text_is_read_verbatim(ctx, rule="C11.R10"):
+    """`rows counted from 1 in the file as the user sees it under any line-ending convention`: rows
+    are counted by the row/column view from the characters it is given; CR, LF and CR LF are told
+    apart there (C09.R5, C11.R8).  Whatever turns a file or a string into that view must hand the
+    text over unchanged: a line-splitting or trimming API on the way (`BufRead::lines` strips `\n`
+    and `\r\n` but not a lone `\r`, so CR followed by CR LF collapses into one line end) shifts every
+    row after it.  In the conversions into the input view (From / TryFrom impls of the view type) and
+    what they call in the crate: no such std call."""
+    prog = ctx.prog
+    view = [f for f in prog.fns.values() if f.crate == "rusty_parser" and f.name == "create_row_col_view"]
+    if len(view) != 1:
+        raise CheckError("anchor create_row_col_view")
+    # the view type: what the From impl that calls create_row_col_view builds
+    builders = [f for f in prog.fns.values() if f.crate == "rusty_parser" and f.impl and f.kind != "closure"
+                and any(mir.callee_of(t) == view[0].id for _b, t in f.body.calls())]
+    if not builders:
+        raise CheckError("%s: nothing calls create_row_col_view" % rule)
+    view_ty = builders[0].impl["self_ty"]
+    roots = [f for f in prog.fns.values() if f.crate == "rusty_parser" and f.impl and f.kind != "closure"
+             and re.search(r"(^|::)(Try)?From<", (f.impl.get("trait_ref") or "").split(" as ")[-1])
+             and f.impl["self_ty"] == view_ty]
+    if len(roots) < 2:
+        raise CheckError("%s: conversions into the input view not found (%d)" % (rule, len(roots)))
+    seen = {}
+    todo = list(roots)
+    while todo:
+        f = todo.pop()
+        if f.id in seen or f.id == view[0].id:
+            continue
+        seen[f.id] = f
+        for c in prog.call_edges(f):
+            g = prog.fns.get(c)
+            if g is not None and g.crate == "rusty_parser":
+                todo.append(g)
+    n = 0
+    for f in sorted(seen.values(), key=lambda f: f.id):
+        bad = [t for _b, t in f.body.calls()
+               if (t.get("cpath") or "").startswith(("std::", "core::", "alloc::"))
+               and (t.get("cpath") or "").split("::")[-1] in LINE_EDITING_STD]
+        n += 1
+        name = f.path.split("::", 1)[1]
+        ctx.decide(not bad, rule, "%s:%s" % (rule, name), f.loc,
+                   "hands the text over without splitting or trimming it",
+                   "%s passes the program text through %s (line %s) before rows are counted: line ends that this call "
+                   "strips or merges (a CR directly followed by CR LF) disappear, and every error after that spot is "
+                   "reported one row too early" % (name, (bad[0].get("cpath") if bad else ""), bad[0].get("ln") if bad else ""))
+    ctx.analysed_units(rule, conversions=[f.path.split("::", 1)[1] for f in roots], functions=n)
+    ctx.require(rule, 2)
+
+
 def run(ctx):
     common.install(ctx)
     r1_with_pos(ctx)
@@ -345,3 +400,4 @@ def run(ctx):
     from . import c09
     c09.r13_lookahead_guard_is_tight(ctx, "C11.R8")
     r9_trace_is_moved_unchanged(ctx)
+    r10_program_text_is_read_verbatim(ctx)
